@@ -6,6 +6,7 @@ import (
 	"go/token"
 	"os"
 	"path/filepath"
+	"regexp"
 	"sort"
 	"strings"
 )
@@ -25,7 +26,7 @@ func genAuth() {
 	mods := authModules()
 	var b strings.Builder
 	b.WriteString("namespace Paloma.Gen.Auth\n\n")
-	b.WriteString("structure Handler where\n  module : String\n  method : String\n  request : String\n  usesCreator : Bool\n  vbUsesCreator : Bool\n  authorityCheck : Bool\n  reads : List String\n  vbReads : List String\n  fields : List (String × String)\nderiving Repr, DecidableEq\n\n")
+	b.WriteString("structure Handler where\n  module : String\n  method : String\n  request : String\n  usesCreator : Bool\n  vbUsesCreator : Bool\n  authorityCheck : Bool\n  reads : List String\n  vbReads : List String\n  fields : List (String × String)\n  idFields : List String\n  eqCreator : List String\n  setFromCreator : List String\n  eqAuthority : List String\n  extSig : Bool\n  signer : String\nderiving Repr, DecidableEq\n\n")
 	var rows, rpcs []string
 	for _, mod := range mods {
 		keeper := parseDir("x/" + mod + "/keeper")
@@ -33,6 +34,7 @@ func genAuth() {
 		kfns := funcDecls(keeper)
 		tfns := funcDecls(types)
 		structs := authStructs(types)
+		signerOpt := authProtoSigners(mod)
 		for _, m := range authServiceMethods(types) {
 			rpcs = append(rpcs, fmt.Sprintf("(%s, %s)", leanStr(mod), leanStr(m)))
 		}
@@ -76,10 +78,42 @@ func genAuth() {
 			}
 			body := src(fd.Body)
 			authority := strings.Contains(body, ".authority") || strings.Contains(body, "governanceMsgGuard(")
-			rows = append(rows, fmt.Sprintf("  { module := %s, method := %s, request := %s,\n    usesCreator := %v, vbUsesCreator := %v, authorityCheck := %v,\n    reads := %s,\n    vbReads := %s,\n    fields := [%s] }",
+			// guard facts (C03): how the handler, its same-package helpers (one level) and the
+			// request's ValidateBasic treat the identity-like fields
+			g := newAuthGuards()
+			authGuardCollect(fd, map[string]string{param: ""}, g, kfns, 1)
+			if vb := tfns[req+".ValidateBasic"]; vb != nil && vb.Recv != nil && len(vb.Recv.List[0].Names) > 0 {
+				authGuardCollect(vb, map[string]string{vb.Recv.List[0].Names[0].Name: ""}, g, tfns, 0)
+			}
+			var idFields []string
+			for _, f := range fields {
+				if f[2] == "address" || g.parsed[f[0]] || authIdentityName(f[0]) {
+					idFields = append(idFields, f[0])
+				}
+			}
+			extSig := authReaches(fd, kfns, map[string]bool{"ValidateEthereumSignature": true, "EthAddressFromSignature": true}, 3, map[*ast.FuncDecl]bool{})
+			pickAll := func(m map[string]bool, extra ...string) []string {
+				var out []string
+				for p := range m {
+					if isField[p] {
+						out = append(out, p)
+						continue
+					}
+					for _, e := range extra {
+						if p == e {
+							out = append(out, p)
+						}
+					}
+				}
+				sort.Strings(out)
+				return out
+			}
+			rows = append(rows, fmt.Sprintf("  { module := %s, method := %s, request := %s,\n    usesCreator := %v, vbUsesCreator := %v, authorityCheck := %v,\n    reads := %s,\n    vbReads := %s,\n    fields := [%s],\n    idFields := %s,\n    eqCreator := %s,\n    setFromCreator := %s,\n    eqAuthority := %s,\n    extSig := %v,\n    signer := %s }",
 				leanStr(mod), leanStr(fd.Name.Name), leanStr(req),
 				reads["Metadata.Creator"], vbReads["Metadata.Creator"], authority,
-				leanStrList(pick(reads)), leanStrList(pick(vbReads)), strings.Join(fl, ", ")))
+				leanStrList(pick(reads)), leanStrList(pick(vbReads)), strings.Join(fl, ", "),
+				leanStrList(idFields), leanStrList(pickAll(g.eqCreator)), leanStrList(pickAll(g.setFromCreator)),
+				leanStrList(pickAll(g.eqAuthority, "Metadata.Creator")), extSig, leanStr(signerOpt[req])))
 		}
 	}
 	b.WriteString("def handlers : List Handler := [\n" + strings.Join(rows, ",\n") + "\n]\n\n")
@@ -337,10 +371,11 @@ func authStructs(files []*ast.File) map[string][][2]ast.Expr {
 
 // authLeafFields lists the string / []string / bytes leaf fields of struct name
 // (recursing into message types of the same package; other packages' types are
-// opaque), as (path, kind) with kind string | strings | bytes.  Metadata is
-// skipped: it is what the authorisation decorator itself checks.
-func authLeafFields(structs map[string][][2]ast.Expr, name, prefix string, depth int) [][2]string {
-	var out [][2]string
+// opaque), as (path, kind, cast) with kind string | strings | bytes and cast =
+// "address" when the Go type is an sdk address cast type (AccAddress / ValAddress).
+// Metadata is skipped: it is what the authorisation decorator itself checks.
+func authLeafFields(structs map[string][][2]ast.Expr, name, prefix string, depth int) [][3]string {
+	var out [][3]string
 	if depth > 4 {
 		return out
 	}
@@ -358,10 +393,10 @@ func authLeafFields(structs map[string][][2]ast.Expr, name, prefix string, depth
 				continue
 			case *ast.ArrayType:
 				if id, ok := x.Elt.(*ast.Ident); ok && (id.Name == "byte" || id.Name == "uint8") {
-					out = append(out, [2]string{path, "bytes"})
+					out = append(out, [3]string{path, "bytes", ""})
 					t = nil
 				} else if id, ok := x.Elt.(*ast.Ident); ok && id.Name == "string" {
-					out = append(out, [2]string{path, "strings"})
+					out = append(out, [3]string{path, "strings", ""})
 					t = nil
 				} else {
 					t = x.Elt
@@ -373,14 +408,309 @@ func authLeafFields(structs map[string][][2]ast.Expr, name, prefix string, depth
 		switch x := t.(type) {
 		case *ast.Ident:
 			if x.Name == "string" {
-				out = append(out, [2]string{path, "string"})
+				out = append(out, [3]string{path, "string", ""})
 			} else if _, ok := structs[x.Name]; ok {
 				out = append(out, authLeafFields(structs, x.Name, path, depth+1)...)
 			}
 		case *ast.SelectorExpr:
 			// casttype bytes such as github_com_cosmos_cosmos_sdk_types.AccAddress
 			if x.Sel.Name == "AccAddress" || x.Sel.Name == "ValAddress" {
-				out = append(out, [2]string{path, "bytes"})
+				out = append(out, [3]string{path, "bytes", "address"})
+			}
+		}
+	}
+	return out
+}
+
+// ---- guard facts ------------------------------------------------------------
+
+// authGuards: per request-field facts about how a handler treats it.
+//
+//	eqCreator[P]      P is compared for equality with metadata.creator and a mismatch returns
+//	setFromCreator[P] P is overwritten with a value derived from metadata.creator
+//	eqAuthority[P]    P (a field, or "Metadata.Creator") is compared with the keeper's authority
+//	                  and a mismatch returns
+//	parsed[P]         P is parsed as a bech32 account / validator address
+type authGuards struct {
+	eqCreator, setFromCreator, eqAuthority, parsed map[string]bool
+}
+
+func newAuthGuards() *authGuards {
+	return &authGuards{map[string]bool{}, map[string]bool{}, map[string]bool{}, map[string]bool{}}
+}
+
+const authAuthority = "$authority"
+
+// authIdentityName: the last component of the field path reads like a principal.
+func authIdentityName(path string) bool {
+	parts := strings.Split(path, ".")
+	last := parts[len(parts)-1]
+	for _, suf := range []string{"Address", "Addresses", "Orchestrator", "Owner", "Admin", "Sender", "Receiver", "Authority", "Signer", "Creator"} {
+		if strings.HasSuffix(last, suf) {
+			return true
+		}
+	}
+	return false
+}
+
+func authCallName(ce *ast.CallExpr) string {
+	switch f := ce.Fun.(type) {
+	case *ast.Ident:
+		return f.Name
+	case *ast.SelectorExpr:
+		return f.Sel.Name
+	}
+	return ""
+}
+
+var authBech32Parsers = map[string]bool{
+	"AccAddressFromBech32": true, "ValAddressFromBech32": true, "MustAccAddressFromBech32": true,
+	"MustValAddressFromBech32": true, "AccAddressFromHexUnsafe": true,
+}
+
+// conversions that keep denoting the same principal
+var authAddrConvs = map[string]bool{"ValAddress": true, "AccAddress": true}
+
+// authDerive resolves e to the request path it is derived from, seeing through
+// address parsers, address conversions and .String() / .Bytes(); the keeper's
+// authority resolves to authAuthority.
+func authDerive(e ast.Expr, alias map[string]string) (string, bool) {
+	if p, ok := authPath(e, alias); ok && p != "" {
+		return p, true
+	}
+	switch x := e.(type) {
+	case *ast.ParenExpr:
+		return authDerive(x.X, alias)
+	case *ast.SelectorExpr:
+		if x.Sel.Name == "authority" {
+			return authAuthority, true
+		}
+	case *ast.CallExpr:
+		name := authCallName(x)
+		if (authBech32Parsers[name] || authAddrConvs[name]) && len(x.Args) >= 1 {
+			return authDerive(x.Args[len(x.Args)-1], alias)
+		}
+		if sel, ok := x.Fun.(*ast.SelectorExpr); ok && len(x.Args) == 0 && (sel.Sel.Name == "String" || sel.Sel.Name == "Bytes") {
+			return authDerive(sel.X, alias)
+		}
+	}
+	return "", false
+}
+
+func authContainsReturn(b *ast.BlockStmt) bool {
+	found := false
+	ast.Inspect(b, func(n ast.Node) bool {
+		if _, ok := n.(*ast.ReturnStmt); ok {
+			found = true
+		}
+		return !found
+	})
+	return found
+}
+
+// authMismatchPairs: the (left, right) operand pairs whose MISMATCH makes cond true:
+// a != b, !a.Equals(b), !bytes.Equal(a, b), and disjunctions of those.
+func authMismatchPairs(cond ast.Expr) [][2]ast.Expr {
+	switch x := cond.(type) {
+	case *ast.ParenExpr:
+		return authMismatchPairs(x.X)
+	case *ast.BinaryExpr:
+		if x.Op == token.NEQ {
+			return [][2]ast.Expr{{x.X, x.Y}}
+		}
+		if x.Op == token.LOR {
+			return append(authMismatchPairs(x.X), authMismatchPairs(x.Y)...)
+		}
+	case *ast.UnaryExpr:
+		if x.Op == token.NOT {
+			if ce, ok := x.X.(*ast.CallExpr); ok {
+				if sel, ok := ce.Fun.(*ast.SelectorExpr); ok {
+					if sel.Sel.Name == "Equals" && len(ce.Args) == 1 {
+						return [][2]ast.Expr{{sel.X, ce.Args[0]}}
+					}
+					if sel.Sel.Name == "Equal" && len(ce.Args) == 2 {
+						return [][2]ast.Expr{{ce.Args[0], ce.Args[1]}}
+					}
+				}
+			}
+		}
+	}
+	return nil
+}
+
+// authGuardCollect walks fd like authCollect does (same alias rules, plus aliases
+// through address parsers) and records the guard facts.
+func authGuardCollect(fd *ast.FuncDecl, alias map[string]string, g *authGuards, fns map[string]*ast.FuncDecl, depth int) {
+	if fd.Body == nil {
+		return
+	}
+	const creator = "Metadata.Creator"
+	// only UNCONDITIONAL statements (direct children of the function body) count as guards /
+	// overwrites: `if owner.Empty() { owner = creator }` is not an overwrite
+	top := map[ast.Node]bool{}
+	for _, st := range fd.Body.List {
+		top[st] = true
+	}
+	ast.Inspect(fd.Body, func(n ast.Node) bool {
+		switch x := n.(type) {
+		case *ast.AssignStmt:
+			if x.Tok != token.DEFINE && x.Tok != token.ASSIGN {
+				return true
+			}
+			rhsOf := func(i int) ast.Expr {
+				if len(x.Lhs) == len(x.Rhs) {
+					return x.Rhs[i]
+				}
+				if len(x.Rhs) == 1 && i == 0 {
+					// v, err := f(...): the value is the first result
+					return x.Rhs[0]
+				}
+				return nil
+			}
+			for i, lhs := range x.Lhs {
+				rhs := rhsOf(i)
+				if rhs == nil {
+					continue
+				}
+				d, ok := authDerive(rhs, alias)
+				if !ok {
+					continue
+				}
+				// a request field overwritten with something derived from the creator
+				if lp, ok := authPath(lhs, alias); ok && lp != "" && !strings.HasPrefix(lp, "Metadata") {
+					if _, isIdent := lhs.(*ast.Ident); !isIdent && d == creator && top[x] {
+						g.setFromCreator[lp] = true
+					}
+				}
+				if id, ok := lhs.(*ast.Ident); ok && id.Name != "_" {
+					alias[id.Name] = d
+				}
+			}
+		case *ast.RangeStmt:
+			if id, ok := x.Value.(*ast.Ident); ok {
+				if p, ok := authPath(x.X, alias); ok && p != "" {
+					alias[id.Name] = p
+				}
+			}
+		case *ast.IfStmt:
+			if !top[x] || !authContainsReturn(x.Body) {
+				return true
+			}
+			for _, pr := range authMismatchPairs(x.Cond) {
+				l, lok := authDerive(pr[0], alias)
+				r, rok := authDerive(pr[1], alias)
+				if !lok || !rok {
+					continue
+				}
+				for _, o := range [][2]string{{l, r}, {r, l}} {
+					if o[0] == creator && o[1] != creator && o[1] != authAuthority {
+						g.eqCreator[o[1]] = true
+					}
+					if o[0] == authAuthority && o[1] != authAuthority {
+						g.eqAuthority[o[1]] = true
+					}
+				}
+			}
+		case *ast.CallExpr:
+			name := authCallName(x)
+			if authBech32Parsers[name] && len(x.Args) >= 1 {
+				if p, ok := authDerive(x.Args[len(x.Args)-1], alias); ok {
+					g.parsed[p] = true
+				}
+			}
+			if depth <= 0 {
+				return true
+			}
+			callee := authCallee(x, fns)
+			if callee == nil || callee.Body == nil {
+				return true
+			}
+			params := authParamNames(callee)
+			sub := map[string]string{}
+			for i, a := range x.Args {
+				if i >= len(params) || params[i] == "_" {
+					continue
+				}
+				if p, ok := authPath(a, alias); ok {
+					sub[params[i]] = p
+				} else if p, ok := authDerive(a, alias); ok {
+					sub[params[i]] = p
+				}
+			}
+			if len(sub) > 0 {
+				authGuardCollect(callee, sub, g, fns, depth-1)
+			}
+		}
+		return true
+	})
+}
+
+// authReaches: does fd (or a same-package function it calls, up to depth levels) call a
+// function with one of the given names?
+func authReaches(fd *ast.FuncDecl, fns map[string]*ast.FuncDecl, names map[string]bool, depth int, seen map[*ast.FuncDecl]bool) bool {
+	if fd == nil || fd.Body == nil || seen[fd] {
+		return false
+	}
+	seen[fd] = true
+	found := false
+	ast.Inspect(fd.Body, func(n ast.Node) bool {
+		if found {
+			return false
+		}
+		ce, ok := n.(*ast.CallExpr)
+		if !ok {
+			return true
+		}
+		if names[authCallName(ce)] {
+			found = true
+			return false
+		}
+		if depth > 0 {
+			if callee := authCallee(ce, fns); callee != nil && authReaches(callee, fns, names, depth-1, seen) {
+				found = true
+				return false
+			}
+		}
+		return true
+	})
+	return found
+}
+
+var (
+	authProtoMsgRe    = regexp.MustCompile(`^\s*message\s+(\w+)\s*\{`)
+	authProtoSignerRe = regexp.MustCompile(`option\s*\(cosmos\.msg\.v1\.signer\)\s*=\s*"(\w+)"`)
+)
+
+// authProtoSigners: request message name -> value of its `cosmos.msg.v1.signer` option
+// ("metadata": the transaction must be signed by metadata.signers; "authority": by the
+// Authority field), read from proto/palomachain/paloma/<module>/*.proto (top-level messages).
+func authProtoSigners(mod string) map[string]string {
+	out := map[string]string{}
+	files, _ := filepath.Glob(filepath.Join(*repo, "proto", "palomachain", "paloma", mod, "*.proto"))
+	sort.Strings(files)
+	for _, f := range files {
+		data, err := os.ReadFile(f)
+		if err != nil {
+			fail("%v", err)
+		}
+		cur, depth := "", 0
+		for _, line := range strings.Split(string(data), "\n") {
+			if i := strings.Index(line, "//"); i >= 0 {
+				line = line[:i]
+			}
+			if depth == 0 {
+				if m := authProtoMsgRe.FindStringSubmatch(line); m != nil {
+					cur = m[1]
+				}
+			}
+			if depth == 1 && cur != "" {
+				if m := authProtoSignerRe.FindStringSubmatch(line); m != nil {
+					out[cur] = m[1]
+				}
+			}
+			depth += strings.Count(line, "{") - strings.Count(line, "}")
+			if depth == 0 {
+				cur = ""
 			}
 		}
 	}
